@@ -12,11 +12,14 @@ CHECKS = {
     "C05": dict(
         text="Machine-checked proof (Lean 4) that the k-way merge scan of assert_no_intersection accepts exactly the pairwise-disjoint "
              "tuples of sorted duplicate-free arrays, for any number/length of arrays, always terminates and never reaches its unreachable!() arm; "
-             "tied to sylvia/src/utils.rs by a differential run of the real function against the model on exhaustive small tuples and random ones. "
+             "tied to sylvia/src/utils.rs twice: (1) a function translator (vlib/rs2lean.py) regenerates Lean definitions of the five const fns from the current "
+             "Rust source on every run (index-based states array, Res = value/panic/out-of-fuel) and the refinement theorems of Thm/C05Refine.lean are re-checked "
+             "against that regenerated code (code_spec: it returns normally iff disjoint, panics iff not, never indexes out of bounds, never reaches unreachable!()); "
+             "(2) a differential run of the real function against both the zipper model and the regenerated code on exhaustive small tuples and random ones. "
              "Generator side: the published list is strictly sorted and is exactly the set of wire names (proof over the rule regenerated from source), checked against "
              "sv::<ep>_messages() and the serialised keys of compiled generated contracts; colliding / non-colliding program twins must fail / build (cargo check).",
         design="§8 C05",
-        technique="Lean 4 proof (invariant over the merge loop) + differential correspondence model vs real const fn",
+        technique="Lean 4 proof (invariant over the merge loop; refinement of Lean code regenerated from the Rust source by a translator) + differential correspondence model vs real const fn",
         note=TB + " Modelled, not verified: konst::cmp_str/eq_str as byte-wise order/equality; const-eval panic = compile error."),
     "C06": dict(
         text="Machine-checked proof that the modelled entry-point generator emits an entry point of kind k iff k is defined (4 defaults; migrate/reply iff a handler "
